@@ -25,5 +25,12 @@ func translateMore(repo, out string, fset *token.FileSet, files map[string]*ast.
 	if err != nil {
 		return err
 	}
-	return writeIfChanged(filepath.Join(out, "Audit.v"), []byte(au))
+	if err := writeIfChanged(filepath.Join(out, "Audit.v"), []byte(au)); err != nil {
+		return err
+	}
+	bi, err := emitBuiltins(fset, files)
+	if err != nil {
+		return err
+	}
+	return writeIfChanged(filepath.Join(out, "Builtins.v"), []byte(bi))
 }
